@@ -95,6 +95,8 @@ def run_path(spec, fnode, script):
       ex.assume_allocated(s_, v_.t)  # objects passed in are live
   for g in eval_clauses(ex, spec.requires, env, {}):
     ex.assume(g)
+  for g in eval_clauses(ex, getattr(spec, 'assume_axioms', ()) or (), env, {}):
+    ex.axioms.append(g)  # definitional axioms of spec-level functions (listed in the evidence)
   if spec.decreases:
     ex._entry_measure = ex.coerce(ex.eval_spec_value(spec.decreases, env), INT).t
   # condition under which each declared exception is due, over the entry state
